@@ -215,6 +215,9 @@ def check_C16(rep, fl):
     import props_policy
     props_policy.check_victim_pair(rep, fl)
     props_policy.check_policy_forwarding(rep, fl)
+    # ignore_internal_cost reaches the processor as the builder was told (R16.4 checks finalize -> processor)
+    import props_panic
+    props_panic.check_builder_plumbing(rep, fl)
     props_store.check_sweeper(rep, fl)
 
 
@@ -576,8 +579,47 @@ def check_dropsets(rep, fl):
               "sets_dropped accounting broken (%d tick sites, %d result sites): %s" % (len(ticks), n_sites, why))
 
 
+def check_metrics_handle(rep, fl, rule="R17.9"):
+    """The metrics handle of a component is installed once: fields of type Metrics / Arc<Metrics> are
+    written only by constructors and by set_metrics / collect_metrics, and no method re-creates its
+    own struct (`*self = Self::new(..)` resets the handle to Noop: later updates are no longer counted)."""
+    facts = fl.facts
+    other = "r#async" if fl.name == "sync" else "::sync::"
+    owners = {}
+    for path, a in facts.adts.items():
+        for v in a["variants"]:
+            for f in v["fields"]:
+                if f["ty"] in ("metrics::Metrics", "std::sync::Arc<metrics::Metrics>") and a.get("span", {}).get("f", "").startswith("src/"):
+                    owners.setdefault(path, []).append(f["name"])
+    bad = []
+    n = 0
+    for b in facts.bodies:
+        if not user_code(b) or other in b.spath or "::test" in b.spath:
+            continue
+        root = strip_generics(b.raw["root"])
+        ctor = root.split("::")[-1] in ("new", "with_hasher", "with_samples", "with_samples_and_hasher", "with_validator", "with_validator_and_hasher", "default", "finalize", "clone") \
+            or root.split("::")[-1] in ("set_metrics", "collect_metrics")
+        for bi, si, role, pl in b.place_uses():
+            if role not in ("write", "mutref"):
+                continue
+            for owner, names in owners.items():
+                for name in names:
+                    if has_field(pl, name, owner):
+                        n += 1
+                        if not ctor:
+                            bad.append("%s writes %s.%s" % (b.spath, short(owner), name))
+            # whole-struct overwrite through a pointer: `*self = ..` in a method of an owner
+            if role == "write" and pl["p"] == ["*"] and 1 <= pl["l"] <= b.arg_count:
+                ty = strip_generics(b.locals[pl["l"]]["ty"].replace("&mut ", "").replace("&", "").split("<")[0])
+                if ty in owners and not ctor:
+                    bad.append("%s overwrites the whole %s (its metrics handle is reset)" % (b.spath, short(ty)))
+    rep.check(not bad and len(owners) >= 3, rule, fl, "Metrics handles", "installed once", "the metrics handles (%s) are written only by constructors and set_metrics / collect_metrics" % ", ".join(sorted(short(o) for o in owners)),
+              "a metrics handle is replaced after construction: %s" % "; ".join(bad[:3]))
+
+
 def check_metrics_core(rep, fl):
     facts = fl.facts
+    check_metrics_handle(rep, fl)
     # R17.6 ratio, get, add
     b = facts.body("metrics::MetricsInner::ratio")
     at, entry = dataflow(b)
@@ -775,8 +817,38 @@ def check_C17(rep, fl):
 # C15
 # ----------------------------------------------------------------------------------------
 
+def check_handle_sharing(rep, fl, rule="R15.5", fields=None):
+    """A cloned handle shares the state of the handle it was cloned from: each listed field of the new
+    Cache is `self.<field>.clone()` (an Arc / Sender clone), not a fresh object.  A per-handle lookup
+    buffer loses the partial batch of every short-lived clone; a per-handle is_closed flag or channel
+    end splits the cache in two."""
+    facts = fl.facts
+    want = fields or ("store", "policy", "get_buf", "insert_buf_tx", "stop_tx", "clear_tx", "is_closed", "metrics")
+    b = None
+    for x in facts.bodies:
+        if x.name == "clone" and (x.raw.get("impl_trait") or "").endswith("Clone") and strip_generics(x.raw.get("impl_self", "").split("<")[0]) == fl.cache and user_code(x):
+            b = x
+    if b is None:
+        rep.missing(rule, fl, "no `impl Clone for %s`" % short(fl.cache))
+        return
+    aggs = [agg_fields(e) for bi, si, st, e in agg_nodes(b, fl.cache.split("::")[-1])]
+    ok = len(aggs) == 1
+    bad = []
+    if ok:
+        f = aggs[0]
+        for name in want:
+            e = f.get(name)
+            shared = e is not None and is_call(e, "Clone::clone") and norm(e[2][0]) == norm(F(V("self"), name))
+            if not shared:
+                bad.append("%s = %s" % (name, show(e) if e is not None else "?"))
+    rep.check(ok and not bad, rule, fl, b, "clone shares " + ",".join(want), "a cloned handle holds clones of the same Arc / channel ends (%s)" % ", ".join(want),
+              "a cloned handle does not share the state of its origin: %s" % "; ".join(bad))
+
+
 def check_C15(rep, fl):
     facts = fl.facts
+    # every handle feeds the same lookup buffer: a batch fills up across handles and nothing is lost with a handle
+    check_handle_sharing(rep, fl, fields=("get_buf", "policy", "metrics"))
     # "in batches of buffer_items": the value given to the builder is the ring's capacity
     import props_panic
     props_panic.check_builder_plumbing(rep, fl)
